@@ -1,5 +1,5 @@
 SPECIFICATION Spec
-CONSTANTS NRows = 4  MaxV = 3  Upw = 2  MinPts = 1  NDim = 2  MaskSpace = "sorted"
+CONSTANTS NRows = 4  MaxV = 3  Upw = 2  MinPts = 1  NDim = 2  MaskSpace = "sorted"  WeightSpace = "sliced"  Opts = {"none", "wlsqarr"}
 CHECK_DEADLOCK FALSE
 INVARIANT IntervalOwnData
 INVARIANT KeptExactly
